@@ -442,6 +442,21 @@ def mon_c19(s, v):
     f = []
     if s.crashed:
         f.append(f"harness process died (sanitizer fault / crash) at line `{s.crashed[0][:80]}`: {str(s.crashed[1])[-600:]}")
+        return f
+    if getattr(s, "hostile", False):
+        # the inbound stream is framed and decoded by the strict reference decoder: an operation that completed successfully needs a
+        # *well-formed* acknowledgement for its packet identifier, with the content the handler was given (these are the C01/C14 monitors,
+        # which only count well-formed packets), and nothing delivered to the application may come from a malformed PUBLISH
+        f += ["malformed acknowledgement completed an operation: " + x for x in mon_c01(s, v) if "completed ok" in x or "handler got" in x or "accepted without" in x]
+        f += ["malformed acknowledgement completed an operation: " + x for x in mon_c14(s, v) if not x.startswith("KNOWN-")]
+        for o in s.ops.values():
+            if o.kind != "recv" or not o.done: continue
+            ev, di, t = o.done[0]
+            w_ = ev.split()
+            if w_[0] != "recvd" or w_[2] != "ok" or len(w_) < 5: continue
+            pl = w_[4]
+            if not any(r["dec"]["type"] == "publish" and r["dec"]["payload"].hex() == (pl if pl != "-" else "") and r["i"] <= di for r in v.inb):
+                f.append(f"{o.name}: delivered a message (payload {pl}) that no well-formed PUBLISH carried")
     return f
 
 
